@@ -15,7 +15,7 @@ class Rec(object):
 
 
 def step_conn(s):
-    return s[1] if s[0] in ("connect", "send", "drop", "closing") else None
+    return s[1] if s[0] in ("connect", "send", "drop", "closing", "halfconn") else None
 
 
 def record(ex, hist, rec=None):
